@@ -251,8 +251,10 @@ def weak_space(methods=('exhaustive_search',), seeds=(0, 1, 5), k_values=(1, 2, 
     """WEAKLY correlated panels x min_corr in {0.8, 0.95, 0.999}: most or all designs fail the correlation test, so the
     ranking is decided by the other verdicts and by the rounded correlation (designs that fail a test compete)."""
     out = []
-    for sd in seeds:
-        p = {'name': 'W', 'G': G, 'T': T, 'seed': sd}
+    # W: weak correlation; V: verdict-diverse (designs failing different SUBSETS of the four tests, incl. pairs of flag tuples
+    # whose lexicographic order is the opposite of their pass count - checked when the panel was chosen)
+    plist = [{'name': 'W', 'G': G, 'T': T, 'seed': sd} for sd in seeds] + [{'name': 'V', 'G': G, 'T': T, 'seed': sd} for sd in (3, 5, 7)]
+    for p in plist:
         for mc_ in (0.8, 0.95, 0.999):
             for k in k_values:
                 kw = {'n_designs': k}
